@@ -17,6 +17,13 @@ bool reservedFitsKeyword(const char* key);
 ///\returns whether the keyword exists and has such a value
 bool integerFitsKeyword(fitsfile* fits, const char* key, uint32_t& result);
 uint32_t countAuxKeywords(fitsfile* fits);
+///Move to the image extension with the given name.
+///Does what fits_movnam_hdu does for image extensions, but verifies while
+///walking over the extensions that each one lies behind the one before it.
+///\return 0 (and sets status to 0) if the extension was found, BAD_HDU_NUM
+///        if there is none (the current HDU is then unchanged), another
+///        CFITSIO status if the file could not be read or is malformed
+int moveToImageExtension(fitsfile* fits, const char* name, int* status);
 
 template<typename Alloc>
 size_t splinetable<Alloc>::estimateMemory(const std::string& filePath,
@@ -79,7 +86,7 @@ size_t splinetable<Alloc>::estimateMemory(const std::string& filePath,
 	for (int i = 0; i < dim; i++) {
 		std::ostringstream hduname;
 		hduname << "KNOTS" << i;
-		fits_movnam_hdu(fits, IMAGE_HDU, const_cast<char*>(hduname.str().c_str()), 0, &error);
+		moveToImageExtension(fits, hduname.str().c_str(), &error);
 		long nknots = 0;
 		int knotdim = 0;
 		fits_get_img_dim(fits, &knotdim, &error);
@@ -420,7 +427,7 @@ bool splinetable<Alloc>::read_fits_core_impl(fitsfile* fits, const std::string& 
 	for (unsigned i = 0; i < ndim; i++) {
 		std::ostringstream hduname;
 		hduname << "KNOTS" << i;
-		fits_movnam_hdu(fits, IMAGE_HDU, const_cast<char*>(hduname.str().c_str()), 0, &error);
+		moveToImageExtension(fits, hduname.str().c_str(), &error);
 		long nknots_temp;
 		int knot_dim = 0;
 		fits_get_img_dim(fits, &knot_dim, &error);
@@ -471,7 +478,7 @@ bool splinetable<Alloc>::read_fits_core_impl(fitsfile* fits, const std::string& 
 		long fpix = 1;
 		int ext_error = 0;
 		int ext_dim = 0;
-		fits_movnam_hdu(fits, IMAGE_HDU, const_cast<char*>("EXTENTS"), 0, &ext_error);
+		moveToImageExtension(fits, "EXTENTS", &ext_error);
 		//only the absence of the extension means that there are no extents;
 		//failing to read the file does not
 		if (ext_error != 0 && ext_error != BAD_HDU_NUM)
@@ -487,7 +494,7 @@ bool splinetable<Alloc>::read_fits_core_impl(fitsfile* fits, const std::string& 
 			//(a second look must come to the same conclusion: cfitsio may
 			//have located the extension but failed to read its header)
 			int again = 0;
-			fits_movnam_hdu(fits, IMAGE_HDU, const_cast<char*>("EXTENTS"), 0, &again);
+			moveToImageExtension(fits, "EXTENTS", &again);
 			if (again != BAD_HDU_NUM)
 				status = again ? again : READ_ERROR;
 			fits_get_num_hdus(fits, &n_hdus, &status);
